@@ -50,6 +50,10 @@ WITNESSES = [
       ("class", "C1", [("x", 2)], [("defn", "m", ["self"], [("nonlocal", ["x"]), ("setv", "x", ("lit", 3)),
                                                             ("ref", "r1", "x")])]),
       ("callm", "C1", "m"), ("ref", "r2", "x")]),
+    ("witness:defn of a name declared nonlocal that an enclosing let binds",
+     [("let", [("x", ("lit", 6))],
+       [("defn", "f1", [], [("nonlocal", ["x"]), ("defn", "x", [], [("lit", 1)]), ("ref", "r1", "x")]),
+        ("call", ("sym", "f1"), []), ("ref", "r2", "x")])]),
 ]
 
 
